@@ -1,13 +1,13 @@
 package main
 
 func init() {
-	regs := []string{"regimes/common", "regimes/de", "regimes/it", "regimes/fr", "regimes/pl", "regimes/gr", "regimes/at", "regimes/be", "regimes/ch", "regimes/co", "regimes/nl", "regimes/pt", "regimes/br", "regimes/in", "regimes/es", "tax"}
+	regs := []string{"regimes/common", "regimes/de", "regimes/it", "regimes/fr", "regimes/pl", "regimes/gr", "regimes/at", "regimes/be", "regimes/ch", "regimes/co", "regimes/nl", "regimes/pt", "regimes/br", "regimes/in", "regimes/es", "regimes/gb", "regimes/mx", "regimes/ae", "tax"}
 	reg(&propCfg{
 		ID:      "C13",
 		Pkgs:    regs,
 		Lenient: regs,
 		Stages: []stage{
-			{Name: "checkdigits", Harness: `^H_C13_(Luhn|DE|IT|FR|FR_SIREN|PL|GR|AT|BE|CH|NL_Digits|NL_Format|PT|PL_SingleDigit|IT_SingleDigit|CH_SingleDigit|FR_SingleDigit|BR|IN|ES_Personal|ES_Org|NormalizeGeneric|CH_Normalize)$`},
+			{Name: "checkdigits", Harness: `^H_C13_(Luhn|DE|IT|FR|FR_SIREN|PL|GR|AT|BE|CH|NL_Digits|NL_Format|PT|PL_SingleDigit|IT_SingleDigit|CH_SingleDigit|FR_SingleDigit|BR|IN|ES_Personal|ES_Org|NormalizeGeneric|CH_Normalize|GB|GB_Branch|GB_Special|MX|MX_Normalize|AE)$`},
 			{Name: "checkdigits-thorough", Harness: `^H_C13_(CO|NL|DE_SingleDigit|AT_SingleDigit|ES_SingleDigit)$`, ThoroughOnly: true, BudgetS: 150},
 		},
 		Functions: []string{"regimes/common.ComputeLuhnCheckDigit", "regimes/de.validateTaxCode+validateTaxCodeChecksum", "regimes/it.validateTaxCode", "regimes/fr.validateVATTaxCode+calculateVATCheckDigit+validateSIRENTaxCode",
